@@ -84,6 +84,7 @@ func (h *Handler6) spoofLoop(dstAddr packet.Addr) {
 
 			h.Unlock()
 
+			packet.VerifYieldPoint("icmp6:spoofLoop:before-send")
 			for _, routerAddr := range list {
 				hostAddr := packet.Addr{MAC: h.session.NICInfo.HostAddr4.MAC, IP: h.session.NICInfo.HostLLA.Addr()}
 				targetAddr := packet.Addr{MAC: h.session.NICInfo.HostAddr4.MAC, IP: routerAddr.IP}
